@@ -37,7 +37,7 @@ class SeedCatcher(Extension):
         ia, ra = message.initialAlignment, message.refinedAlignment
         rec = {"qid": int(ia.query.moleculeId), "shift": int(ia.query.shift), "n": len(ia.query.positions),
                "idx": int(message.index), "ref": int(ia.reference.moleculeId), "rev": bool(ia.reverseStrand),
-               "peaks": [int(p.position) for p in ra.peaks],
+               "peaks": [int(p.position) for p in ra.peaks], "cstart": int(ra.correlationStart),
                "frac": [float(p.position) != int(p.position) for p in ra.peaks]}
         with open(self.path, "a") as f:
             f.write(json.dumps(rec) + "\n")
@@ -154,6 +154,36 @@ def encode_seeds(seeds):
     return ";".join(ent)
 
 
+def sec_cfg(sc):
+    """the secondary-stage parameters of a scenario: (res, blur, margin, threshold as a Fraction)"""
+    from fractions import Fraction
+    a = sc.extra_args
+    return (int(a.get("-r2", 100)), int(a.get("-b2", 4)), int(a.get("-ma", 16000)), Fraction(str(a.get("-pt", 27))))
+
+
+def encode_pseeds(seeds, margin):
+    """selected primary peaks (reference, strand, position = start of the refinement window + margin)
+    with the secondary positions the real run delivered"""
+    tbl = seeds_to_table(seeds)
+    ent = []
+    for (qid, shift, n), d in sorted(tbl.items()):
+        sd = "&".join(f"{d[i]['ref']}:{1 if d[i]['rev'] else 0}:{d[i]['cstart'] + margin}:{','.join(str(p) for p in d[i]['peaks'])}"
+                      for i in sorted(d))
+        ent.append(f"{qid}:{shift}:{n}@{sd}")
+    return ";".join(ent)
+
+
+def show_sec(seeds, keep=10):
+    """the real run's secondary peak lists in the canonical form of `Coma.Driver.showDerived`"""
+    tbl = seeds_to_table(seeds)
+    ent = []
+    for (qid, shift, n), d in sorted(tbl.items()):
+        sd = "&".join(",".join(str(p) for p in (sorted(d[i]["peaks"]) if len(d[i]["peaks"]) == keep else d[i]["peaks"]))
+                      for i in sorted(d))
+        ent.append(f"{qid}:{shift}:{n}@{sd}")
+    return ";".join(ent)
+
+
 def rows_str(mols, shuffle_seed=None):
     rows = cmapio.cmap_rows(mols)
     if shuffle_seed is not None:
@@ -168,15 +198,25 @@ def run_line(sc: Scenario, mode, seeds, rids=None, qids=None, it=1):
     mult = f"{mult.numerator}/{mult.denominator}"
     var = sc.extra_args.get("-ss", 0)
     diff = sc.extra_args.get("-diff", 100000)
+    res2, blur2, margin, thr = sec_cfg(sc)
+    if any("cstart" not in s for s in seeds):       # replay of a scenario recorded before the secondary stage was modelled
+        return (f"RUN mode={mode} {gens.pstr(P)} mult={mult} var={var} diff={diff} den=1 it={it} "
+                f"rids={','.join(map(str, rids or []))} qids={','.join(map(str, qids or []))} "
+                f"REFROWS={rows_str(sc.refs)} QRYROWS={rows_str(sc.queries)} SEEDS={encode_seeds(seeds)}")
+    # the secondary stage is inside the model: only the selected PRIMARY peaks are handed over
     return (f"RUN mode={mode} {gens.pstr(P)} mult={mult} var={var} diff={diff} den=1 it={it} "
+            f"sec={res2},{blur2},{margin},{thr.numerator}/{thr.denominator} "
             f"rids={','.join(map(str, rids or []))} qids={','.join(map(str, qids or []))} "
-            f"REFROWS={rows_str(sc.refs)} QRYROWS={rows_str(sc.queries)} SEEDS={encode_seeds(seeds)}")
+            f"REFROWS={rows_str(sc.refs)} QRYROWS={rows_str(sc.queries)} PSEEDS={encode_pseeds(seeds, margin)}")
 
 
 def real_run_output(res):
     if res["error"]:
         return "ERR " + res["error"]
-    return " ".join(f"FILE{n}=" + "\\n".join(l.replace("\t", "|") for l in ls) for n, ls in sorted(res["files"].items()))
+    out = " ".join(f"FILE{n}=" + "\\n".join(l.replace("\t", "|") for l in ls) for n, ls in sorted(res["files"].items()))
+    if all("cstart" in s for s in res["seeds"]):
+        out += " SEC=" + show_sec(res["seeds"])
+    return out
 
 
 # ---------------------------------------------------------------- scenario generators
